@@ -276,3 +276,8 @@ pub fn stream_freed_native(server: bool, raw_id: u64, half_recv: bool, other_pre
     assert!(st.send_streams == if half_recv { 3 } else { 2 });
     1
 }
+
+/// (connection-level send limit, bidirectional stream limit) for native replay bodies outside this module
+pub fn peek_send_limits(s: &StreamsState) -> (u64, u64) {
+    (s.max_data, s.max[Dir::Bi as usize])
+}
